@@ -236,31 +236,43 @@ package thrift
 
 //@ spec (*BinaryProtocol).ReadMapBegin
 //@   props C19 C06 C01
-//@   ensures ok: old(p.Read) + 6 <= len(p.Buf) && tvalid(Type(p.Buf[old(p.Read)])) && tvalid(Type(p.Buf[old(p.Read)+1])) && int32(be32(p.Buf, old(p.Read)+2)) >= 0 ==> \
+//@   ensures ok: old(p.Read) + 6 <= len(p.Buf) && tvalid(Type(p.Buf[old(p.Read)])) && tvalid(Type(p.Buf[old(p.Read)+1])) && int32(be32(p.Buf, old(p.Read)+2)) >= 0 && \
+//@       int(int32(be32(p.Buf, old(p.Read)+2))) <= len(p.Buf) - old(p.Read) - 6 ==> \
 //@       err == nil && kType == Type(p.Buf[old(p.Read)]) && vType == Type(p.Buf[old(p.Read)+1]) && size == int(int32(be32(p.Buf, old(p.Read)+2))) && p.Read == old(p.Read) + 6
 //@   ensures short: old(p.Read) + 6 > len(p.Buf) ==> err != nil
 //@   ensures invalid: old(p.Read) + 6 <= len(p.Buf) && (!tvalid(Type(p.Buf[old(p.Read)])) || !tvalid(Type(p.Buf[old(p.Read)+1])) || int32(be32(p.Buf, old(p.Read)+2)) < 0) ==> err != nil
 //@   ensures size: err == nil ==> 0 <= size && size <= 2147483647
+//@   ensures bounded: err == nil ==> size <= len(p.Buf) - p.Read      // a count larger than the bytes that follow is rejected: callers may allocate by it
+//@   ensures adv: err == nil ==> p.Read == old(p.Read) + 6 && kType == Type(p.Buf[old(p.Read)]) && vType == Type(p.Buf[old(p.Read)+1]) && size == int(int32(be32(p.Buf, old(p.Read)+2)))
+//@   ensures toolarge: old(p.Read) + 6 <= len(p.Buf) && int(int32(be32(p.Buf, old(p.Read)+2))) > len(p.Buf) - old(p.Read) - 6 ==> err != nil
 //@   ensures mono: old(p.Read) <= p.Read
 //@   modifies p.Read
 
 //@ spec (*BinaryProtocol).ReadListBegin
 //@   props C19 C06 C01
-//@   ensures ok: old(p.Read) + 5 <= len(p.Buf) && tvalid(Type(p.Buf[old(p.Read)])) && int32(be32(p.Buf, old(p.Read)+1)) >= 0 ==> \
+//@   ensures ok: old(p.Read) + 5 <= len(p.Buf) && tvalid(Type(p.Buf[old(p.Read)])) && int32(be32(p.Buf, old(p.Read)+1)) >= 0 && \
+//@       int(int32(be32(p.Buf, old(p.Read)+1))) <= len(p.Buf) - old(p.Read) - 5 ==>  \
 //@       err == nil && elemType == Type(p.Buf[old(p.Read)]) && size == int(int32(be32(p.Buf, old(p.Read)+1))) && p.Read == old(p.Read) + 5
 //@   ensures short: old(p.Read) + 5 > len(p.Buf) ==> err != nil
 //@   ensures invalid: old(p.Read) + 5 <= len(p.Buf) && (!tvalid(Type(p.Buf[old(p.Read)])) || int32(be32(p.Buf, old(p.Read)+1)) < 0) ==> err != nil
 //@   ensures size: err == nil ==> 0 <= size && size <= 2147483647
+//@   ensures bounded: err == nil ==> size <= len(p.Buf) - p.Read      // a count larger than the bytes that follow is rejected: callers may allocate by it
+//@   ensures adv: err == nil ==> p.Read == old(p.Read) + 5 && elemType == Type(p.Buf[old(p.Read)]) && size == int(int32(be32(p.Buf, old(p.Read)+1)))
+//@   ensures toolarge: old(p.Read) + 5 <= len(p.Buf) && int(int32(be32(p.Buf, old(p.Read)+1))) > len(p.Buf) - old(p.Read) - 5 ==> err != nil
 //@   ensures mono: old(p.Read) <= p.Read
 //@   modifies p.Read
 
 //@ spec (*BinaryProtocol).ReadSetBegin
 //@   props C19 C06 C01
-//@   ensures ok: old(p.Read) + 5 <= len(p.Buf) && tvalid(Type(p.Buf[old(p.Read)])) && int32(be32(p.Buf, old(p.Read)+1)) >= 0 ==> \
+//@   ensures ok: old(p.Read) + 5 <= len(p.Buf) && tvalid(Type(p.Buf[old(p.Read)])) && int32(be32(p.Buf, old(p.Read)+1)) >= 0 && \
+//@       int(int32(be32(p.Buf, old(p.Read)+1))) <= len(p.Buf) - old(p.Read) - 5 ==>  \
 //@       err == nil && elemType == Type(p.Buf[old(p.Read)]) && size == int(int32(be32(p.Buf, old(p.Read)+1))) && p.Read == old(p.Read) + 5
 //@   ensures short: old(p.Read) + 5 > len(p.Buf) ==> err != nil
 //@   ensures invalid: old(p.Read) + 5 <= len(p.Buf) && (!tvalid(Type(p.Buf[old(p.Read)])) || int32(be32(p.Buf, old(p.Read)+1)) < 0) ==> err != nil
 //@   ensures size: err == nil ==> 0 <= size && size <= 2147483647
+//@   ensures bounded: err == nil ==> size <= len(p.Buf) - p.Read      // a count larger than the bytes that follow is rejected: callers may allocate by it
+//@   ensures adv: err == nil ==> p.Read == old(p.Read) + 5 && elemType == Type(p.Buf[old(p.Read)]) && size == int(int32(be32(p.Buf, old(p.Read)+1)))
+//@   ensures toolarge: old(p.Read) + 5 <= len(p.Buf) && int(int32(be32(p.Buf, old(p.Read)+1))) > len(p.Buf) - old(p.Read) - 5 ==> err != nil
 //@   ensures mono: old(p.Read) <= p.Read
 //@   modifies p.Read
 
